@@ -161,6 +161,8 @@ impl Check for C13 {
         }
         line(&mut a, S, "JOIN #c");
         line(&mut a, R1, "JOIN #c");
+        // the receiver holds ranks, so that status-prefixed targets reach it
+        line(&mut a, S, "MODE #c +ov rone rone");
         line(&mut a, R2, "MODE rtwo +w");
         line(&mut a, S, "OPER root rootpw");
         let n = r.range(12, 30);
@@ -169,8 +171,8 @@ impl Check for C13 {
         for _ in 0..n {
             k += 1;
             let t: Vec<String> = match r.below(30) {
-                0..=4 => vec!["PRIVMSG".into(), ["#c", "rone", "rtwo", "#c,rtwo", "@#c"][r.below(5)].into(), texts(&mut r, k)],
-                5 | 6 => vec!["NOTICE".into(), ["#c", "rone"][r.below(2)].into(), texts(&mut r, k)],
+                0..=4 => vec!["PRIVMSG".into(), ["#c", "rone", "rtwo", "#c,rtwo", "@#c", "+#c", "@#c,+#c"][r.below(7)].into(), texts(&mut r, k)],
+                5 | 6 => vec!["NOTICE".into(), ["#c", "rone", "@#c", "+#c"][r.below(4)].into(), texts(&mut r, k)],
                 7 | 8 => vec!["TOPIC".into(), "#c".into(), texts(&mut r, k)],
                 9 => vec!["WALLOPS".into(), texts(&mut r, k)],
                 10 => vec!["AWAY".into(), texts(&mut r, k)],
